@@ -241,7 +241,9 @@ func setQdisc(kind string) error {
 	}
 	// 160 kbit/s = 20 bytes per millisecond; the bucket holds one datagram of the exchange and
 	// a few bytes: the request drains it, the reply waits several milliseconds for its tokens
-	burst := map[string]string{"ip": "100", "scion": strconv.Itoa(scionDgramLen + 14 + 28 + 10)}[kind]
+	// (SCION: a forwarded packet is 68 bytes longer — the listener adds the receive timestamp as
+	// an end-to-end option — and must still fit the bucket)
+	burst := map[string]string{"ip": "100", "scion": strconv.Itoa(scionDgramLen + 68 + 14 + 28 + 10)}[kind]
 	out, err := osexec.Command("tc", "qdisc", "add", "dev", "lo", "root", "tbf", "rate", "160kbit", "burst", burst, "latency", "2s").CombinedOutput()
 	if err != nil {
 		return fmt.Errorf("tc: %v %s", err, strings.TrimSpace(string(out)))
@@ -673,7 +675,10 @@ func runHist(cfg childCfg, idents []int, evs []event) *histObs {
 			o.arrT = time.Now()
 			if err != nil {
 				o.kind = 'u'
-				continue
+				for k := j + 1; k < len(evs); k++ {
+					h.obs[k].kind = '.'
+				}
+				return h
 			}
 			if p, err := parseSCION(buf[:n]); err == nil && p.l4 == "udp" && int(p.udp.DstPort) == fwdPort {
 				o.kind, o.answered = 'f', true
@@ -730,6 +735,13 @@ func runHist(cfg childCfg, idents []int, evs []event) *histObs {
 		}
 		if o.kind == 'b' || o.kind == 'i' {
 			h.checkReply(j)
+		}
+		if o.kind == 'u' {
+			// the listener socket is stuck: the rest of the history is not sent
+			for k := j + 1; k < len(evs); k++ {
+				h.obs[k].kind = '.'
+			}
+			break
 		}
 	}
 	return h
